@@ -138,6 +138,20 @@ def rule_status(R):
         ok = is_call(t, "PartialEq::eq", "eq") and any(is_call(x, "status") for x in walk(t)) and any(
             x[0] == "agg" and x[2] == STATUS and x[3] == verdict for x in walk(t))
         R.ob("status/%s" % name, ok, "Session::%s is status(op) == %s" % (name, verdict), where=b.span)
+        # the handle's query of the same name answers with the session's: same predicate, same operation, not negated
+        from .roles import CONN
+        try:
+            cbm = roles.method(f, CONN, name)
+        except AnchorLost:
+            cbm = None
+        if cbm is not None:
+            ct = peel(cbm.local_term(0))
+            okc = (ct[0] == "call" and ct[2] == b.name and len(ct[3]) == 2 and chain(ct[3][0])[1][-1:] == ["session"]
+                   and peel(ct[3][1]) == ("param", "op")) or \
+                  (is_call(ct, "PartialEq::eq", "eq") and any(is_call(x, "status") for x in walk(ct)) and any(
+                      x[0] == "agg" and x[2] == STATUS and x[3] == verdict for x in walk(ct)))
+            R.ob("status/connection/%s" % name, okc,
+                 "Connection::%s answers with Session::%s of the same operation (found %s)" % (name, name, show(ct)[:100]), where=cbm.span)
 
 
 def _status_hook(f, hr, hp):
@@ -484,7 +498,13 @@ def rule_ack_lookup(R):
     outq.clause_removal_result(R, "ack/release-removal-reports-removal", outq.role_fn(f, "release_removal"), "pending_release")
 
 
+def rule_reason(R):
+    """a failure reason code is surfaced by the poll that consumed it: which codes are failures is ReasonCode::success (MQTT 5 2.4: below 0x80) -- shared clause"""
+    roles.clause_reason_predicates(R, "reason")
+
+
 def run(R):
+    R.rule("reason", rule_reason)
     R.rule("ack", rule_ack_lookup)
     R.rule("status", rule_status)
     R.rule("handle", rule_handle)
